@@ -1,6 +1,6 @@
-CONSTANTS Req = {"r1", "r2", "r3"} Backend = {"b1", "b2"} SharedResponseKey = FALSE ShortRetention = FALSE
+CONSTANTS Req = {"r1", "r2", "r3"} Backend = {"b1", "b2"} SharedResponseKey = FALSE ShortRetention = FALSE ResponseStartTimeUnset = FALSE
 CONSTANT BackendOf <- MCBackendOf
 SPECIFICATION Spec
 CHECK_DEADLOCK FALSE
 INVARIANTS FetchIsRequest ResponseIsOwn OwnBackendOnly
-PROPERTIES CompletedNotListed RespondCompletes CronSparesWaiting QuietBackendsKeepRequests
+PROPERTIES CompletedNotListed RespondCompletes CronSparesWaiting
